@@ -2,6 +2,7 @@ use amv::fw::Check;
 
 pub mod c01_conv;
 pub mod c02_ref;
+pub mod c03_seq;
 pub mod c04_meta;
 pub mod c05_queue;
 pub mod c06_failed;
@@ -18,6 +19,7 @@ pub fn registry() -> Vec<Box<dyn Check>> {
     vec![
         Box::new(c01_conv::C01),
         Box::new(c02_ref::C02),
+        Box::new(c03_seq::C03),
         Box::new(c04_meta::C04),
         Box::new(c05_queue::C05),
         Box::new(c06_failed::C06),
